@@ -48,7 +48,7 @@ def worker(job):
     out = []
     if job["kind"] == "ops":
         table, order = job["table"], job["order"]
-        text = stage_prec.table_text(table, order)
+        text = stage_prec.table_text(table, order, rulelevel=job.get("rulelevel", False))
         configs = [("lr", "LALR", False, False), ("glr", "LALR", False, False), ("lr", "SLR", False, False)]
     else:
         text = marked_text(job["g"], job["marks"])
@@ -65,7 +65,11 @@ def worker(job):
         if job["kind"] == "ops":
             for p in prods:
                 op = p["rhs"][1] if len(p["rhs"]) == 3 and p["rhs"][1] in table else None
-                attrs.append(dict(DEFAULT, prio=table[op][0], assoc=table[op][1]) if op else dict(DEFAULT))
+                inherited = dict(DEFAULT)
+                if job.get("rulelevel") and p["lhs"] == "E":
+                    ra, rp = stage_prec.rule_meta(table, order)     # "n" and "(" E ")" inherit the rule-level marks
+                    inherited = dict(DEFAULT, prio=rp, assoc=ra)
+                attrs.append(dict(DEFAULT, prio=table[op][0], assoc=table[op][1]) if op else inherited)
         else:
             # productions of the loaded grammar in text order: S' first, then the rules in the order written
             want = {}
@@ -85,8 +89,8 @@ def _jobs(tier, seed):
     rng = random.Random(616)
     pick = tabs if len(tabs) <= p["nops"] else tabs[:40] + rng.sample(tabs[40:], p["nops"] - 40)
     for i, t in enumerate(pick):
-        jobs.append({"kind": "ops", "table": t["table"], "order": t["order"], "origin": t["origin"],
-                     "name": "ops %s order %s" % (" ".join("%s:%d%s" % (o, pr, a[0]) for o, (pr, a) in sorted(t["table"].items())), "".join(x[0] for x in t["order"]))})
+        jobs.append({"kind": "ops", "table": t["table"], "order": t["order"], "origin": t["origin"], "rulelevel": t.get("rulelevel", False),
+                     "name": "ops%s %s order %s" % (" rule-level" if t.get("rulelevel") else "", " ".join("%s:%d%s" % (o, pr, a[0]) for o, (pr, a) in sorted(t["table"].items())), "".join(x[0] for x in t["order"]))})
     fam = gen.family(3, 3, limit=p["nmarks"] // 3, rng_seed=661) + gen.family(4, 2, nts=("S", "A", "B"), terms=gen.PLAIN_TERMS, limit=p["nmarks"] // 3, rng_seed=662) + \
         gen.idiom_family(limit=p["nmarks"] // 3, rng_seed=663)
     rng = random.Random(617)
